@@ -27,6 +27,13 @@ def pairing():
     return table
 
 
+# move_agent + turn_agent; the episode ends on the exit or on touching an obstacle
+DEADLY_RIVERS = ([0, 1], {'name': 'reduce_any', 'parts': [{'name': 'reach_exit'}, {'name': 'bump_moving_obstacle'}]}, [0, 1, 2, 3, 4, 5], None)
+
+
+NO_BUMPING = ([0, 1, 4, 2], {'name': 'reduce_any', 'parts': [{'name': 'reach_exit'}, {'name': 'bump_into_wall'}]}, list(range(8)), None)
+
+
 def goal_reached(reset_name, cs):
     g, p, o, held = cs
     here = g[p[0]][p[1]]
@@ -190,6 +197,15 @@ def param_sets(ctx):
         {'name': 'dynamic_obstacles', 'shape': (4, 5), 'num_obstacles': 1, 'random_agent': False},
         {'name': 'dynamic_obstacles', 'shape': (5, 5), 'num_obstacles': 3, 'random_agent': True},
         {'name': 'memory_rooms', 'shape': (5, 5), 'layout': (1, 1), 'colors': [1, 2], 'num_beacons': 1, 'num_exits': 2},
+        # rivers of another object type (the reset function's parameter): obstacles used as static, deadly water under dynamics in which
+        # touching one ends the episode -- the openings are what makes the exit reachable
+        {'name': 'crossing', 'shape': (5, 5), 'num_rivers': 1, 'object_type': TY['MovingObstacle'], '_pair': DEADLY_RIVERS},
+        {'name': 'crossing', 'shape': (7, 7), 'num_rivers': 2, 'object_type': TY['MovingObstacle'], '_pair': DEADLY_RIVERS},
+        {'name': 'crossing', 'shape': (7, 9), 'num_rivers': 3, 'object_type': TY['MovingObstacle'], '_pair': DEADLY_RIVERS},
+        # the same layouts under stricter rules than the shipped files use: walking into a wall ends the episode (the way through never requires it)
+        {'name': 'keydoor', 'shape': (5, 6), '_pair': NO_BUMPING}, {'name': 'keydoor', 'shape': (4, 7), '_pair': NO_BUMPING},
+        {'name': 'rooms', 'shape': (7, 7), 'layout': (2, 2), '_pair': NO_BUMPING}, {'name': 'crossing', 'shape': (7, 5), 'num_rivers': 2, 'object_type': TY['Wall'], '_pair': NO_BUMPING},
+        {'name': 'empty', 'shape': (4, 5), 'random_agent': True, 'random_exit': True, '_pair': NO_BUMPING},
     ]
     return shipped + small
 
@@ -236,7 +252,8 @@ def run(ctx):
     limit = 4000 if ctx.tier == 'quick' else 60000
     budget = 40 if ctx.tier == 'quick' else 1500
     for d in param_sets(ctx):
-        pair = table[d['name']]
+        d = dict(d)
+        pair = d.pop('_pair', None) or table[d['name']]
         world = World(pair[0], pair[1], pair[2])
         states, complete = initial_states(ctx, d, max_tree, seeds)
         ctx.rng.shuffle(states)
